@@ -6,6 +6,7 @@ package kit
 import (
 	"fmt"
 	"io"
+	"os"
 	"sync"
 
 	"github.com/relab/hotstuff"
@@ -76,7 +77,13 @@ func Keys(scheme string, n int) []hotstuff.PrivateKey {
 }
 
 // Logger returns a silent logger.
-func Logger(tag string) logging.Logger { return logging.NewWithDest(io.Discard, tag) }
+func Logger(tag string) logging.Logger {
+	if os.Getenv("VERIF_LOG") != "" {
+		logging.SetLogLevel(os.Getenv("VERIF_LOG"))
+		return logging.NewWithDest(os.Stderr, tag)
+	}
+	return logging.NewWithDest(io.Discard, tag)
+}
 
 // NewCluster builds n members that know each other's public keys (and BLS proofs of possession) and can
 // fetch blocks from each other's stores through their mock senders.
